@@ -140,7 +140,73 @@ def _rand_ds(rng, keep_fms=True, fms=None):
     return ["ds", int(en), mode, fms]
 
 
+# ---- C07: systematic fault enumeration (every call site x mode schedule x visit kind x FMS) ------------
+
+def _enum_layout(k):
+    def comp(name, hooks, fbs, inject_comp=None, in_base=False):
+        return {"name": name, "hooks": hooks, "resets": [{"attr": "r0", "default": 0, "inherited": False}], "plain_attrs": [],
+                "feedbacks": fbs, "inject_dep": True, "inject_comp": inject_comp, "in_base_robot": in_base}
+
+    def fb(name, hint, key=None):
+        return {"name": name, "key": key, "hint": hint, "nt_type": HINTS[hint][1], "values": list(HINTS[hint][2])}
+
+    base = {"dyadic": True, "period": 1 / 64.0, "fms": True, "split_robot": False, "auto_selector_initial": None, "cap_waits": 8, "boot_us": 0,
+            "robot_feedbacks": [fb("get_rv", "int")]}
+    if k == 0:
+        return dict(base, use_teleop_in_auto=True, components=[comp("c0", ["setup", "on_enable", "on_disable"], [fb("get_a", "float")]),
+                                                                comp("c1", ["on_enable", "on_disable"], [fb("b", "str", "kb")], inject_comp="c0")],
+                    modes=[{"module": "m0", "cls": "Mode0", "name": "Alpha0", "default": True}])
+    if k == 1:
+        return dict(base, dyadic=False, period=0.02, use_teleop_in_auto=False, split_robot=True,
+                    components=[comp("c0", ["on_enable"], [], in_base=True), comp("c1", ["setup", "on_disable"], [fb("get_x", "bools")]),
+                                comp("c2", ["on_enable", "on_disable"], [])],
+                    modes=[{"module": "m0", "cls": "Mode0", "name": "B0", "default": False}, {"module": "m1", "cls": "Mode1", "name": "Two Ball1", "default": True}])
+    return dict(base, use_teleop_in_auto=True, components=[comp("c0", ["on_enable", "on_disable"], [fb("v0", "ints")])], modes=[], robot_feedbacks=[])
+
+
+_ENUM_SCHEDS = {
+    "teleop": (8, [(1, ["ds", 1, "teleop", None]), (6, ["ds", 0, "teleop", None])]),
+    "auto": (8, [(1, ["ds", 1, "auto", None]), (6, ["ds", 0, "auto", None])]),
+    "test": (8, [(1, ["ds", 1, "test", None]), (6, ["ds", 0, "test", None])]),
+    "disabled": (5, []),
+    "tour": (10, [(1, ["ds", 1, "teleop", None]), (3, ["ds", 1, "auto", None]), (5, ["ds", 1, "test", None]), (7, ["ds", 1, "teleop", None]), (8, ["ds", 0, "teleop", None])]),
+    "auto_exit": (8, [(1, ["ds", 1, "auto", None]), (4, ["end"])]),
+}
+_ENUM_CACHE = []
+
+
+def c07_enum_space():
+    if not _ENUM_CACHE:
+        for k in range(3):
+            cfg = _enum_layout(k)
+            per = all_sites(cfg)
+            sites = per["lifecycle"] + per["execute"] + per["init"] + per["periodic"] + per["fb"] + per["mode"]
+            for site in sites:
+                for sched in _ENUM_SCHEDS:
+                    for visit in (1, 3, "*"):
+                        for fms in (1, 0):
+                            _ENUM_CACHE.append((k, site, sched, visit, fms))
+    return _ENUM_CACHE
+
+
+def c07_enum_plan(seed, j):
+    k, site, sched, visit, fms = c07_enum_space()[j]
+    cfg = dict(_enum_layout(k), fms=bool(fms))
+    cap, packets = _ENUM_SCHEDS[sched]
+    cfg["cap_waits"] = cap
+    ops = [{"site": "wait", "visit": v, "acts": [list(a)]} for v, a in packets]
+    ops.append({"site": site, "visit": visit, "acts": [["raise"]]})
+    return {"engine": ENGINE, "property": "C07", "seed": seed, "config": cfg, "ops": ops,
+            "enum": {"case": j, "layout": k, "site": site, "schedule": sched, "visit": visit, "fms": fms}}
+
+
 def generate(seed, prop, tier, index=0):
+    if prop == "C07":
+        n = len(c07_enum_space())
+        if tier == "thorough" and index < n:
+            return c07_enum_plan(seed, index)
+        if tier == "quick" and index < 700:
+            return c07_enum_plan(seed, (index * 7919 + seed) % n)
     rng = random.Random(seed)
     cfg = gen_config(rng, prop)
     sites = all_sites(cfg)
@@ -638,6 +704,10 @@ def execute(plan, trace=False):
         except Violation as v:
             status, violation = "violation", v.to_json()
         probes, shape, states, trans = _coverage(cfg, model, mlog, moutcome, ops)
+        if plan.get("enum"):
+            probes["enumerated_cases"] = 1
+            probes["enumerated_cases_fault_reached" if model.faults_fired else "enumerated_cases_site_not_reached_in_that_mode"] = 1
+            shape = util.h48(["enum", plan["enum"]["layout"], plan["enum"]["site"], plan["enum"]["schedule"], plan["enum"]["visit"], plan["enum"]["fms"]])
         if status == "ok" and diff is not None:
             probes["foreign_divergence_" + diff[0]] = 1
         nontrivial = _nontrivial(prop, cfg, probes, model)
